@@ -173,7 +173,7 @@ def rule_tables(facts, rep):
     got = set()
     other_true = []
     for kind, args in [("Ansi", ("enum", "anstyle::color::AnsiColor::" + n)) for n in sgr.ANSI16] + [("Ansi256", ("sym", "i")), ("Rgb", ("sym", "rgb"))]:
-        ev = abseval.Evaluator(facts, "anstyle_roff", {})
+        ev = abseval.Evaluator(facts, "anstyle_roff", {}, inline_crates=("anstyle",))
         env = abseval.Env()
         env[ib["params"][0]["name"]] = ("ctor", "anstyle::color::Color::" + kind, args)
         try:
@@ -465,7 +465,12 @@ def rule_segments(facts, rep):
     if okc:
         body = hir.simp(clo[0]["body"])
         okc = body.get("k") == "call" and hir.callee_decl(body).endswith(("Into::into", "From::from")) and hir.is_local(body["args"][0], clo[0]["params"][0].get("name"))
-    rep.check(okc, "segments", s["path"], "map-is-the-From-conversion", "the closure is `|x| x.into()`", loc(s))
+    elif not clo:
+        # the conversion passed by name: `.map(StyledStr::from)`
+        maps = [n for n in hir.walk(s["hir"]) if hir.is_call(n, "Iterator::map") and len(n["args"]) == 2]
+        fv = hir.simp(maps[0]["args"][1]) if len(maps) == 1 else {}
+        okc = fv.get("k") == "def" and str(fv.get("path", "")).endswith(("From::from", "Into::into", "::from")) and "StyledStr" in str(fv.get("path", "")) + str(fv.get("ty", ""))
+    rep.check(okc, "segments", s["path"], "map-is-the-From-conversion", "the closure is `|x| x.into()` (or the conversion itself, by name)", loc(s))
     b = facts.body("anstyle_roff", R + "to_roff")
     rep.fn(b["path"])
     loops = [l for l in (hir.for_loop(n) for n in hir.walk(b["hir"]) if n.get("k") == "match" and n.get("src") == "ForLoopDesugar") if l]
